@@ -77,9 +77,15 @@ def run_cases(prop, cases, tag):
         impl = run_impl_shards(scripts, work, tag)
         mscripts = [prop.model_script(c, impl.get(c.sid, [])) for c in cases]
         model = run_model_shards(mscripts, work, tag)
+        # optional second model pass (e.g. the composed outstation model, engine `ofull`): scripts that
+        # do NOT depend on the implementation's answers; None = the case is not covered by that model
+        extra = None
+        if hasattr(prop, "extra_model_script"):
+            xscripts = [x for x in (prop.extra_model_script(c, impl.get(c.sid, [])) for c in cases) if x]
+            extra = run_model_shards(xscripts, work, tag + "x") if xscripts else {}
     finally:
         shutil.rmtree(work, ignore_errors=True)
-    return impl, model
+    return impl, model, extra
 
 
 def check_property(prop, tier, seed, replay=None):
@@ -164,6 +170,8 @@ def check_property(prop, tier, seed, replay=None):
     evaluations = 0
     nontrivial = set()
     mismatches = []
+    xmismatches = []   # second model pass (prop.extra_model_script / prop.extra_canon)
+    xpass = {"compared": 0, "skipped_by_script": 0, "skipped_by_model": 0}
     samples = []
     dist = {}
     try:
@@ -174,7 +182,24 @@ def check_property(prop, tier, seed, replay=None):
             if broken:
                 cases += prop.search(rng, broken[0][0])
         if cases:
-            impl, model = run_cases(prop, cases, "run")
+            res = run_cases(prop, cases, "run")     # (impl, model) from the overrides of c02/c20, else (impl, model, extra)
+            impl, model = res[0], res[1]
+            extra = res[2] if len(res) > 2 else None
+            if extra is not None:
+                # second pass: compare the implementation's trace with the second model's own trace
+                for c in cases:
+                    if c.sid not in extra:
+                        xpass["skipped_by_script"] += 1
+                        continue
+                    it = impl.get(c.sid, ["missing"])
+                    xt = extra[c.sid]
+                    a, b = prop.extra_canon(it, "impl"), prop.extra_canon(xt, "model")
+                    if a is None or b is None:          # the model itself says the script is outside its domain
+                        xpass["skipped_by_model"] += 1
+                        continue
+                    xpass["compared"] += 1
+                    if a != b:
+                        xmismatches.append((c, it, xt))
             for c in cases:
                 it = impl.get(c.sid, ["missing"])
                 mt = model.get(c.sid, ["missing"])
@@ -199,7 +224,11 @@ def check_property(prop, tier, seed, replay=None):
     coverage["evaluations"] = evaluations
     coverage["distinct_nontrivial"] = len(nontrivial)
     coverage["traces_validated_against_impl"] = evaluations
-    coverage["model_impl_mismatches"] = len(mismatches)
+    coverage["model_impl_mismatches"] = len(mismatches) + len(xmismatches)
+    if hasattr(prop, "extra_model_script"):
+        coverage["second_pass"] = dict(xpass, mismatches=len(xmismatches),
+                                       what=getattr(prop, "extra_what", "second model pass"))
+        coverage["traces_validated_against_impl_second_pass"] = xpass["compared"]
     coverage["input_distribution"] = dist
     coverage["samples"] = samples or [{"note": "no script executed"}]
     coverage["rule"] = getattr(prop, "rule", "")
@@ -231,12 +260,14 @@ def check_property(prop, tier, seed, replay=None):
                              "replay": "./check %s --replay <this file>" % prop.id})
         lines.append("VIOLATION property=%s replay=%s" % (prop.id, path))
         exit_code = 1
-    if nviol == 0 and (broken or mismatches):
+    if nviol == 0 and (broken or mismatches or xmismatches):
         what = []
         for kind, text in broken:
             what.append({"broken": kind, "detail": text})
         for c, it, mt in mismatches[:5]:
             what.append({"broken": "correspondence", "script": c.script, "impl_trace": it, "model_trace": mt})
+        for c, it, xt in xmismatches[:5]:
+            what.append({"broken": "correspondence-ofull", "script": c.script, "impl_trace": it, "model_trace": xt})
         path = write_replay(prop.id, "unexplained.json",
                             {"property": prop.id, "no_failing_input_found": True,
                              "theorems_or_correspondence_no_longer_checking": what})
@@ -251,13 +282,30 @@ def check_property(prop, tier, seed, replay=None):
     for l in lines:
         print(l)
     print("%s %s: obligations %d/%d, %d scripts (%d distinct non-trivial), %d model/impl mismatches, %d violations, %.1fs"
-          % (prop.id, tier, discharged, obligations, evaluations, len(nontrivial), len(mismatches), nviol, time.time() - t0))
+          % (prop.id, tier, discharged, obligations, evaluations, len(nontrivial), len(mismatches) + len(xmismatches), nviol, time.time() - t0))
+    if hasattr(prop, "extra_model_script"):
+        print("%s second pass (%s): %d scripts compared, %d mismatches, %d not covered (%d by script, %d by model)"
+              % (prop.id, getattr(prop, "extra_what", "second model"), xpass["compared"], len(xmismatches),
+                 xpass["skipped_by_script"] + xpass["skipped_by_model"], xpass["skipped_by_script"], xpass["skipped_by_model"]))
     if broken:
         for kind, text in broken:
             print("BROKEN %s: %s" % (kind, text[:600].replace("\n", " | ")))
     for c, it, mt in mismatches[:3]:
         print("MISMATCH %s\n  script: %s\n  impl:   %s\n  model:  %s" % (c.sid, c.script.replace("\n", " / ")[:600], " / ".join(it)[:400], " / ".join(mt)[:400]))
+    for c, it, xt in xmismatches[:3]:
+        print("MISMATCH-ofull %s\n  script: %s\n  %s" % (c.sid, c.script.replace("\n", " / ")[:600], first_difference(prop.extra_canon(it, "impl"), prop.extra_canon(xt, "model"))))
     return exit_code
+
+
+def first_difference(a, b):
+    """the first line at which two canonical traces differ, with a little context"""
+    a, b = a or [], b or []
+    for k in range(max(len(a), len(b))):
+        x = a[k] if k < len(a) else "<none>"
+        y = b[k] if k < len(b) else "<none>"
+        if x != y:
+            return "after: %s\n  impl:   %s\n  model:  %s" % (" / ".join(a[max(0, k - 3):k]), x, y)
+    return "no difference"
 
 
 def load_replay_case(path):
